@@ -529,7 +529,7 @@ def want_report(c):
     return zlib.crc32(json.dumps(c.get("doc"), sort_keys=True, ensure_ascii=True).encode()) % 3 == 0
 
 
-def run_bin(binary, args, timeout=10, stdin=None, pin=False):
+def run_bin(binary, args, timeout=60, stdin=None, pin=False):
     """`pin`: the process sees exactly one CPU (single-core host, container limited to one CPU)"""
     if TIMEOUTS[0] >= 3:
         # the binary hangs: do not spend the whole budget on watchdog expiries
@@ -1248,6 +1248,10 @@ def lines_e2e_cde(cases, workdir, stream, binary):
                 twin_args = (cde_args(c["opts"], None, 1) + ["--rooms-file", os.path.join(d, "rooms.json")]) if c.get("rooms_file") else cde_args(c["opts"], c["rooms"], 1)
                 rc2, so2, se2, to2 = run_bin(binary, twin_args + prf + [inp, outp])
                 same = rc2 == rc
+                if to2:
+                    # (a watchdog expiry is a matter of C10 / C04, and of the machine's load — not of C13)
+                    out.append(line("direct", ["C10"], ok=False, what=f"the run on the twin export did not finish within the watchdog time; stderr tail: {se2[-200:]}", case=i, stream=stream))
+                    continue
                 if same and rc2 == 0:
                     imp2 = json.load(open(outp, encoding="utf-8"))
                     m2 = re.search(r"with solution quality (\S+) / overall assignment quality (\S+)\. Based", imp2.get("summary", ""))
